@@ -21,6 +21,7 @@ import (
 	"github.com/taskctl/taskctl/pkg/variables"
 
 	"verif/harness/internal/core"
+	"verif/harness/internal/sched"
 )
 
 func init() { logrus.SetOutput(ioutil.Discard) }
@@ -427,8 +428,11 @@ func Check(env *core.Env, rep *core.Report) *core.Result {
 			break
 		}
 	}
+	// the composed specification (Taskctl.tla): context jobs in whole-binary event logs of pipelines
+	composeInfo := sched.ComposeCheck(env, rep, map[bool]int{false: 30, true: 400}[env.Thorough()], "ctx2", "+ctx3")
 	gen, dist, nruns, cmds := core.TLCTotals()
 	cov := map[string]interface{}{
+		"whole_binary_traces_against_Taskctl_tla": composeInfo,
 		"states": dist, "transitions": gen, "tlc_runs": nruns,
 		"traces_validated_against_impl": len(idx), "evaluations": len(idx), "distinct_nontrivial": nontrivial,
 		"executions_by_mode": modes,
